@@ -1182,6 +1182,71 @@ const OWN_FAMILIES: &[&str] = &[
     "lt_not_whitespace", "lt_comment_ends_file", "lt_directive_trivia", "lt_angle_include", "lt_tokens", "lt_ok_shapes",
 ];
 
+/// one rejected program per diagnostic that C07's families (which report only the first of their offenders) rarely
+/// reach first: `ty_single#<i>`
+const TY_SINGLE: &[&str] = &[
+    "Missing<int> g_a;\n",
+    "namespace N { }\nstatic N::T g_a;\n",
+    "struct A { int x; };\nstruct B { int y; };\nint f() { A a; return a.B::y; }\n",
+    "int f() { float arr[2]; return arr[1.5]; }\n",
+    "int f() { return ~1.5; }\n",
+    "int f() { float a = 1; return a << 1; }\n",
+    "struct P { float a; };\nfloat f() { P p; return true ? p : 1; }\n",
+    "struct P { float a; };\nstruct O { float a; };\nfloat f() { P p; O o = (O)p; return o.a; }\n",
+    "struct P { float a; int b; };\nstatic P g = { 1, 2, 3 };\n",
+    "void f() { float2 v = { 1, 2, 3 }; }\n",
+    "void f() { float g[]; }\n",
+    "static int n = 3;\nstatic float g[n];\n",
+    "static int n = 3;\nenum E { A = n };\n",
+    "static int g : register(t0);\n",
+    "struct S { int m : packoffset(c0); };\n",
+    "void f() { int local : SEMANTIC; }\n",
+    "static int g : SEMANTIC;\n",
+    "void f() { [unroll(1, 2)] for (int i = 0; i < 2; ++i) { } }\n",
+    "void f() { [branch(3)] if (true) { } }\n",
+    "[[rssl::bind_group]]\nBuffer<float> g;\n",
+    "[[rssl::bind_group(1, 2)]]\nBuffer<float> g;\n",
+    "row_major float4 g;\n",
+    "unorm int g;\n",
+    "struct V { float4 p : SV_Position; };\n[outputtopology(\"triangle\")]\n[numthreads(1,1,1)]\nvoid ms(out vertices V v[3], out indices float3 t[1]) { }\n",
+    "void f(int a = 1, int b) { }\n",
+    "template<typename T = int, typename U>\nstruct TS { int m; };\n",
+    "template<typename T>\nstruct TS { T m; };\nstatic TS<float, 2, 3> g;\n",
+    "[outputtopology(\"square\")]\n[numthreads(1, 1, 1)]\nvoid ms() { }\n",
+    "void f() { SamplerState s = StaticSampler { }; }\n",
+    "SamplerState g = StaticSampler { Unknown = 1; };\n",
+    "float4 vs() : SV_Position { return float4(0,0,0,1); }\nfloat4 ps() : SV_Target0 { return float4(0,0,0,1); }\nPipeline Q { VertexShader = vs; PixelShader = ps; DepthBias = vs; }\n",
+    "float4 vs() : SV_Position { return float4(0,0,0,1); }\nfloat4 ps() : SV_Target0 { return float4(0,0,0,1); }\nPipeline Q { VertexShader = vs; PixelShader = ps; CullMode = Sideways; }\n",
+    "Buffer<float> g : register(t0, spaceX);\n",
+    "Buffer<float> g : packoffset(c0);\n",
+    "int f() { return 1; } }\n",
+];
+
+/// the same for lexer and preprocessor diagnostics: `lx_single#<i>`
+const LX_SINGLE: &[&str] = &[
+    "#include 1\n", "#include\n", "#include M\n", "#define M(a) a\nstatic int v = M;\n", "#if 1\n#else junk\n#endif\n", "#if 1\n#endif junk\n",
+    "#endif\n", "#else\n", "#elif 1\n", "static int v = 99999999999999999999;\n", "static int v = 0xfffffffffffffffff;\n",
+    "static int v = 0777777777777777777777777;\n", "static uint v = 4294967296u;\n", "static int v = 9223372036854775808l;\n",
+    "static uint v = 0x100000000u;\n", "static int v = 0x8000000000000000l;\n", "static uint v = 040000000000u;\n",
+    "static int v = 01000000000000000000000l;\n", "#include <abc\n", "#include \"abc\n", "static float v = 1e5#INF;\n", "static float v = 0.0#INF;\n",
+    "static float v = 1.5#INF + 0xABD + 0456 + 0xabd;\nstatic int w = not_there;\n", "static float v = 1.0q;\n", "#define M(a \n", "#define M(\n",
+    "#define 1 2\n", "#undef\n", "#undef 1\n", "#ifdef\n#endif\n", "#ifndef 1\n#endif\n", "#pragma\n", "#line 5\n", "#error stop\n", "#warning w\n",
+    "#if\n#endif\n", "#if (\n#endif\n", "#if 1 +\n#endif\n", "#define F(x) x\nstatic int v = F(1;\n", "#define F(x) x\nstatic int v = F(1, 2);\n",
+    "#define F() 1\nstatic int v = F(2);\n", "#define C a ##\nstatic int v = C;\n", "#define C ## a\nstatic int v = C;\n", "#if 1\n", "#ifdef X\n#else\n#else\n#endif\n",
+    "static int v = \"abc;\n", "static int v = \"abc\ndef\";\n", "static int v = 1; /* open\n", "static int v = 1 $ 2;\n", "static int v = 1.5e;\n", "static int v = 0x;\n",
+];
+
+fn own_family_names() -> Vec<String> {
+    let mut v: Vec<String> = OWN_FAMILIES.iter().map(|s| s.to_string()).collect();
+    for i in 0..TY_SINGLE.len() {
+        v.push(format!("ty_single#{}", i));
+    }
+    for i in 0..LX_SINGLE.len() {
+        v.push(format!("lx_single#{}", i));
+    }
+    v
+}
+
 struct OwnProg {
     files: Files,
     mode: Mode,
@@ -1201,6 +1266,19 @@ fn own_program(family: &str, rng: &mut Rng) -> Option<OwnProg> {
     }
     let one = |src: String, anchors: Vec<(usize, String)>| Some(OwnProg { files: vec![("main.rssl".to_string(), src)], mode: Mode::NoPipeline, anchors });
     let bad = format!("undeclared_{}", n);
+    if let Some(i) = family.strip_prefix("ty_single#") {
+        let src = TY_SINGLE.get(i.parse::<usize>().ok()?)?;
+        return Some(OwnProg {
+            files: vec![("main.rssl".to_string(), format!("{}{}[numthreads(1, 1, 1)]\nvoid entry()\n{{\n}}\nPipeline P\n{{\n    ComputeShader = entry;\n}}\n", head, src))],
+            mode: Mode::All,
+            anchors: vec![],
+        });
+    }
+    if let Some(i) = family.strip_prefix("lx_single#") {
+        let src = LX_SINGLE.get(i.parse::<usize>().ok()?)?;
+        let before = if rng.chance(1, 2) { "int before_it() { return 0; }\n" } else { "" };
+        return Some(OwnProg { files: vec![("main.rssl".to_string(), format!("{}{}{}int f() {{ return 1; }}\n", head, before, src))], mode: Mode::NoPipeline, anchors: vec![] });
+    }
     match family {
         "mx_obj_body" => one(format!("{}#define BAD_{} (1 + {})\nint f()\n{{\n    int a = 2;\n    return a + BAD_{};\n}}\n", head, n, bad, n), vec![(0, bad.clone())]),
         "mx_fn_body" => one(
@@ -1801,7 +1879,7 @@ fn run_source(src: &Source, tgt: Tgt, rng: &mut Rng, out: &mut Out, hist: &mut H
     // edits aimed at the construct the diagnostic points to
     if !targets.is_empty() {
         for case in 0..targeted {
-            let which = case % 9;
+            let which = if targeted >= 9 { case % 9 } else { rng.below(9) as usize };
             let Some((fi, edits, lines_mode, label)) = targeted_edit(rng, files, &info, &targets, which) else {
                 hist.add("targeted-edit=none(no such place)");
                 continue;
@@ -2569,11 +2647,14 @@ pub fn run(args: &Args, out: &mut Out) {
         run_source(&src, tgt, &mut rng, out, &mut hist, per_source, if thorough { 9 } else { 3 });
     }
     // the diagnostics stream: every family of rejected programs (C07's and this module's), edits aimed at the construct
-    let seeds_per_family = if thorough { 8 } else { 2 };
+    let seeds_per_family = if thorough { 24 } else { 6 };
     let mut fam_sources = 0u64;
-    for (kind, fams) in [("diag", diag::FAMILIES), ("own", OWN_FAMILIES)] {
+    let diag_names: Vec<String> = diag::FAMILIES.iter().map(|s| s.to_string()).collect();
+    for (kind, fams) in [("diag", diag_names), ("own", own_family_names())] {
         for (fi, family) in fams.iter().enumerate() {
-            for j in 0..seeds_per_family {
+            // the single-program families have no variation beyond their header lines
+            let seeds = if family.starts_with("ty_single#") || family.starts_with("lx_single#") { (seeds_per_family / 6).max(1) } else { seeds_per_family };
+            for j in 0..seeds {
                 let seed = rng.next() >> 16;
                 let Some(src) = family_source(kind, family, seed) else { continue };
                 let every_target = family.starts_with("export") || family.starts_with("layout");
@@ -2581,13 +2662,29 @@ pub fn run(args: &Args, out: &mut Out) {
                     if (every_target && j == 0) || ti == (fi + j as usize) % 4 {
                         hist.add(&format!("family-target={}", t.name()));
                         fam_sources += 1;
-                        run_source(&src, *t, &mut rng, out, &mut hist, 3, 9);
+                        run_source(&src, *t, &mut rng, out, &mut hist, 2, 9);
                     }
                 }
             }
         }
     }
     hist.0.insert("family-sources".into(), fam_sources);
+    // the repository's own rejected inputs (first argument of check_fail / check_fail_message in the typer tests)
+    let repo_root = std::env::var("VERIF_REPO").unwrap_or_else(|_| "/repo".to_string());
+    let mut rejected = 0u64;
+    for rel in ["typer/tests/type_check_tests.rs", "typer/tests/evaluator_tests.rs"] {
+        if let Ok(text) = std::fs::read_to_string(format!("{}/{}", repo_root, rel)) {
+            for (i, src) in diag::extract_rejected_inputs(&text, &["check_fail(", "check_fail_message("]).iter().enumerate() {
+                if !thorough && i % 3 != 0 {
+                    continue;
+                }
+                rejected += 1;
+                let source = Source { files: vec![("type_test.rssl".to_string(), src.clone())], mode: Mode::NoPipeline, layout: false, tag: format!("repo-rejected:{}:{}", rel.rsplit('/').next().unwrap_or(""), i), clean: None, anchor: None };
+                run_source(&source, ALL_TARGETS[i % 4], &mut rng, out, &mut hist, 1, if thorough { 9 } else { 4 });
+            }
+        }
+    }
+    hist.0.insert("repo-rejected-inputs".into(), rejected);
     run_position_cases(&mut rng, if thorough { 40000 } else { 3000 }, &sample_files, out, &mut hist);
     run_lex_cases(&mut rng, if thorough { 60000 } else { 4000 }, &sample_files, out, &mut hist);
     // the repository's own inputs
